@@ -738,6 +738,35 @@ Proof.
     + apply (ef_id_lt st e _ F). unfold event_ids. apply in_or_app; left. apply in_map; exact HC.
 Qed.
 
+Lemma list_eqb_refl {T} (eqb : T -> T -> bool) (l : list T) : (forall x, In x l -> eqb x x = true) -> list_eqb eqb l l = true.
+Proof.
+  induction l as [|x l IH]; cbn; intros H; [reflexivity|].
+  rewrite (H x (or_introl eq_refl)), IH; auto.
+Qed.
+
+Lemma fchange_eqb_refl c : fchange_eqb c c = true.
+Proof.
+  unfold fchange_eqb. destruct (norm_change c) as [|v|]; try reflexivity. apply fval_eqb_eq. reflexivity.
+Qed.
+
+Lemma create_eqb_refl c : create_eqb c c = true.
+Proof.
+  unfold create_eqb. rewrite !N.eqb_refl, !Bool.eqb_reflx, list_eqb_refl; [reflexivity|].
+  intros x _. apply fchange_eqb_refl.
+Qed.
+
+Lemma update_built_eqb_refl u : update_built_eqb u u = true.
+Proof.
+  unfold update_built_eqb. rewrite N.eqb_refl, list_eqb_refl by (intros x _; apply fchange_eqb_refl).
+  destruct (u_assign u) as [[|]|]; reflexivity.
+Qed.
+
+Lemma built_eqb_refl e : built_eqb e e = true.
+Proof.
+  unfold built_eqb. rewrite N.eqb_refl, Nat.eqb_refl, list_eqb_refl by (intros x _; apply create_eqb_refl).
+  cbn [andb]. apply forallb_forall. intros u HU. apply existsb_exists. exists u. split; [exact HU|apply update_built_eqb_refl].
+Qed.
+
 Lemma satisfies_model_trace_from ops qs : forall st last hr,
   spec_ok st hr -> qs_bounded qs ->
   (forall e, last = Some e -> reapply st e = (st, 0)) ->
@@ -748,7 +777,7 @@ Proof.
   - cbn in V. apply andb_true_iff in V as [V1 V2]. cbn [model_trace].
     pose proof (valid_event_facts Hreload st e V1) as F.
     rewrite (apply_valid Hmask Hbits st e F) in *. cbn [fst snd] in *. cbn [satisfies_from].
-    rewrite N.eqb_refl, (valid_in_domain st hr e I V1). cbn [satisfies_from tl].
+    rewrite N.eqb_refl, (valid_in_domain st hr e I V1). cbn [satisfies_from]. rewrite built_eqb_refl. cbn [andb].
     assert (spec_ok (put_all st (e_ws e) (ev_items st e)) (e :: hr)) as I'.
     { pose proof (step_spec Hmask Hbits Hreload st hr e I V1) as S. rewrite (apply_valid Hmask Hbits st e F) in S. exact S. }
     rewrite (satisfies_obs_all _ _ _ _ I' B).
